@@ -46,6 +46,10 @@
 #include "avtp/CommonHeader.h"
 
 #define MAX_PDU_SIZE                1500
+#ifdef COVESA_OPEN1722_VERIF_MAX_PDU_SIZE    /* verification hook: scaled-down receive buffer */
+#undef MAX_PDU_SIZE
+#define MAX_PDU_SIZE                COVESA_OPEN1722_VERIF_MAX_PDU_SIZE
+#endif
 #define MAX_MSG_SIZE                100
 
 static char ifname[IFNAMSIZ];
